@@ -22,10 +22,11 @@ func run(seed uint64, n int, tier string, outDir string) []*Stats {
 	// hlib's splitmix streams of consecutive seeds overlap (shifted by one draw): spread the seeds
 	r := NewRng(seed*2654435761 + 97)
 	st := NewStats("c06", seed)
-	cf := NewCoqFile("From V Require Import Common.Base C06.TsTokens C06.SkipType C06.Enum C06.TsTarget C06.Harness.")
+	cf := NewCoqFile("From V Require Import Common.Base C06.TsTokens C06.SkipType C06.Enum C06.TsTarget C06.ParamProps C06.Harness.")
 
 	cf.AddCases("skip_cases", "Z * Z * Z * toks * bool * Z * list tk", "check_skip", skipperCases(r, st, n))
 	cf.AddCases("target_cases", "target_case", "check_target", targetCases(r, st))
+	cf.AddCases("pp_cases", "pp_case", "check_pp", paramPropCases(r, st, n/2))
 	cf.AddCases("enum_cases", "enum_case", "check_enum", enumCases(r, st, n/2))
 	glueGrid(st)
 	glueTyped(r, st, n)
